@@ -210,7 +210,9 @@ def run_verus(unit, cfg, text, scratch, rlimit=None, seed=None, extra=None):
             # untagged: enclosing tagged region?  look upward for a `//@region` marker
             props, name = region_of(lines, (prim or {}).get("line_start", 0))
             if props is None:
-                props = list(unit.implicit)
+                # a verification condition of the unit's own text that no tagged clause names (a loop invariant, a callee's precondition, an arithmetic
+                # check): the unit's argument for every property it serves rests on it
+                props = list(dict.fromkeys(list(unit.implicit) + list(unit.props)))
                 name = "%s.%s@%s" % (unit.name, kind, re.sub(r"[^\w+\-*/<>=&|!\[\]().]", "_", ptext)[:70])
                 oid = "O-side-" + name
             else:
